@@ -3,6 +3,8 @@ pub mod c05;
 pub mod c08;
 pub mod c09;
 pub mod c12;
+pub mod c14;
+pub mod c17;
 
 use crate::framework::Prop;
 
@@ -13,6 +15,8 @@ pub fn by_id(id: &str) -> Option<&'static dyn Prop> {
         "C08" => Some(&c08::C08),
         "C09" => Some(&c09::C09),
         "C12" => Some(&c12::C12),
+        "C14" => Some(&c14::C14),
+        "C17" => Some(&c17::C17),
         _ => None,
     }
 }
